@@ -131,7 +131,7 @@ def gen_gradle(rng):
     for blk in rng.sample(["plugins {\n    id 'java'\n}", "repositories {\n    mavenCentral()\n}", "group = 'com.me'", "apply plugin: 'java'"], rng.choice([0, 1, 3])):
         lines.append(blk)
     body = []
-    n = rng.choice([1, 2, 3, 5])
+    n = rng.choice([0, 1, 2, 3, 5])      # 0: an empty dependencies block
     for _ in range(n):
         conf = rng.choice(CONFS)
         g, a = rng.choice([x for x in GROUPS if "$" not in x]), rng.choice(ARTS)
